@@ -2039,7 +2039,8 @@ def run(chk):
                 "in the tag; HTTP with and without server ETags; S3 etag / version-id / checksum with 3 preferences), "
                 "seeded samples of length 3-5 and random histories up to length 30, for the file source also histories in which "
                 "the file changes inside the etag()/load() call of a (forced) check after each of that call's file-system "
-                "calls, each followed by a stable tail of "
+                "calls, for file/HTTP/S3 also validating sources (validate_schema=True: ~30% of all cases and a dedicated "
+                "family) with schema-rejected revisions and roll-backs to earlier bytes, each followed by a stable tail of "
                 "three unforced checks on which convergence is judged; initial_load on/off, guard built from the "
                 "source's document or from an unrelated one, six back-off configurations, checks run through "
                 "check_and_reload_async, check_and_reload (no loop / under a running loop) and poll_once; plus every "
@@ -2061,6 +2062,15 @@ def run(chk):
         "had read the old bytes = event right after the call; read the new bytes = event right before it; old "
         "signature + new hash with include_mtime, or a torn read: none)",
         "faults are Exception subclasses (BaseException is not caught by the reloader and not modelled)",
+        "schema validation (validate_schema=True on the file / HTTP / S3 source, jsonschema from /verif/.pydeps + the "
+        "bundled policy.schema.json) is not part of the Coq model: Sources.v knows loadable documents and unparsable "
+        "texts only.  A content that parses but is rejected by the schema (four single-point mutations: misspelt rule "
+        "key, effect / algorithm outside the enum, wrong type) is given to the model as an unparsable text (BBad) when "
+        "the source validates and as a loadable document when it does not; the clauses - above all 'a successful load() "
+        "returns the document the source holds at that moment, and only then may the active policy change' - are judged "
+        "directly on the implementation for these histories (family 'schema': publication of a rejected revision, seen by "
+        "a forced / unforced / mid-check load, then roll-back to the earlier bytes = the earlier content-hash ETag and a "
+        "304, fix-forward, delete + restore; strong, weak and no ETags)",
         "every write/touch of the policy file gets a fresh mtime (same size + same mtime_ns rewrites belong to C16)",
         "the polling thread (_run_loop) is modelled only as 'calls check repeatedly'; network and S3 are fakes",
         "two truly concurrent checks: model = all interleavings of the lock-delimited blocks and source calls; on the "
